@@ -12,11 +12,10 @@
    default, proto2 `optional` emitted when present, proto2 `required` always emitted).
    On top: the litep2p post-processing named by the property.
 
-   Third-party parsers that are NOT modelled enter through an oracle dictionary supplied with
+   Multiaddr::try_from and Cid::read_bytes are modelled in Formats.v.  What is NOT modelled
+   (the curve-point check, hash functions) enters through an oracle dictionary supplied with
    each case (kind, key bytes) -> answer:
-     kind 1  Multiaddr::try_from(bytes)           answer [valid; empty; has_p2p_tail] ++ p2p id bytes
      kind 2  ed25519 VerifyingKey::from_bytes     answer [valid]
-     kind 3  Cid::read_bytes                      answer [valid] ++ cid.to_bytes()
      kind 4  Code::try_from(t) + digest(data)     key = varint t ++ data; answer [supported] ++ digest
    Theorems quantify over all dictionaries. *)
 From Coq Require Import List NArith Bool.
@@ -24,6 +23,7 @@ From V.gen Require Consts.
 From V.common Require Import Wire Varint Protobuf.
 From V.C18 Require Model.
 From V.C03 Require Model.
+From V.C19 Require Import Formats.
 Import ListNotations.
 Open Scope N_scope.
 
@@ -76,7 +76,8 @@ Fixpoint orc_find (o : oracle) (kind : N) (key : bytes) : option (list N) :=
   end.
 Definition orc_flag (o : oracle) (kind : N) (key : bytes) : bool :=
   match orc_find o kind key with Some (1 :: _) => true | _ => false end.
-Definition maddr_valid (o : oracle) (b : bytes) : bool := orc_flag o 1 b.
+(* Multiaddr::try_from: the model of Formats.v (the dictionary is not consulted) *)
+Definition maddr_valid (o : oracle) (b : bytes) : bool := maddr_valid_m b.
 
 (* ================================================================== keys.proto *)
 Record pubkey := mkPubkey { k_type : N; k_data : bytes }.
@@ -356,16 +357,16 @@ Definition enc_identify (m : identify) : bytes := encode_fields (fields_identify
 (* the address handling of on_outbound_substream: an address is kept when Multiaddr::try_from
    succeeds, it is not empty, and a trailing /p2p component (if any) names `expect` *)
 Definition addr_kept (o : oracle) (expect : bytes) (a : bytes) : bool :=
-  match orc_find o 1 a with
-  | Some (1 :: empty :: has_p2p :: id) =>
-      (empty =? 0) && ((has_p2p =? 0) || nlist_eqb id expect)
-  | _ => false
-  end.
+  maddr_valid_m a && negb (is_nil a) &&
+  match maddr_last_p2p a with Some id => nlist_eqb id expect | None => true end.
 Record identify_info := mkInfo {
   ii_protocol_version : option bytes; ii_agent : option bytes; ii_protocols : list bytes;
   ii_observed : option bytes; ii_listen : list bytes }.
 (* supported_protocols is a HashSet: sorted, deduplicated here *)
+Definition IDENTIFY_PAYLOAD_SIZE : N := Consts.C19_IDENTIFY_PAYLOAD_SIZE.
 Definition identify_response (o : oracle) (peer local : bytes) (b : bytes) : option identify_info :=
+  if IDENTIFY_PAYLOAD_SIZE <? blen b then None   (* the substream codec refuses the frame *)
+  else
   match dec_identify b with
   | Some m =>
       Some (mkInfo (i_protocol_version m) (i_agent_version m) (sort_dedupe (i_protocols m))
@@ -527,8 +528,7 @@ Definition block_cid (o : oracle) (blk : bs_block) : option bytes :=
   end.
 
 (* on_message_received, as read: wanted cids (valid cid, want type 0/1), responses *)
-Definition cid_of (o : oracle) (b : bytes) : option (list N) :=
-  match orc_find o 3 b with Some (1 :: c) => Some c | _ => None end.
+Definition cid_of (o : oracle) (b : bytes) : option (list N) := cid_read b.
 Definition bs_request (o : oracle) (m : bs_msg) : list (list N * N) :=
   match bs_wantlist_of m with
   | Some w =>
